@@ -171,6 +171,11 @@ func (pl *pool) ifaceCallSites(suffix string) []Site {
 
 // everyPathHits: every path from just after `from` to a function return executes one of the targets.
 func everyPathHits(from ssa.Instruction, targets map[ssa.Instruction]bool) bool {
+	return everyPathFromHits(from.Block(), instrIndex(from)+1, targets)
+}
+
+// everyPathFromHits: every path from instruction index idx of block b0 to a function return executes one of the targets.
+func everyPathFromHits(b0 *ssa.BasicBlock, idx int, targets map[ssa.Instruction]bool) bool {
 	type pt struct {
 		b *ssa.BasicBlock
 		i int
@@ -201,7 +206,7 @@ func everyPathHits(from ssa.Instruction, targets map[ssa.Instruction]bool) bool 
 		}
 		return true
 	}
-	return scan(from.Block(), instrIndex(from)+1)
+	return scan(b0, idx)
 }
 
 // countMayFollow: how many of the instructions in set may execute after `from` on some path.
